@@ -367,12 +367,12 @@ func runC01(r *ev.Run, thorough bool) int {
 		specs = append(specs, gen.Make(def, dims, vals))
 	})
 	if thorough {
-		// third level over reduced domains: every dimension restricted to its first 3 non-default values
+		// third level over reduced domains: every dimension restricted to its first 5 non-default values
 		red := make([]gen.Dim, len(dims))
 		copy(red, dims)
 		for i := range red {
-			if red[i].N > 4 {
-				red[i].N = 4
+			if red[i].N > 6 {
+				red[i].N = 6
 			}
 		}
 		gen.Assignments(red, 3, func(vals []int) {
@@ -424,7 +424,7 @@ func runC01(r *ev.Run, thorough bool) int {
 		if thorough {
 			// pairs: second-level deviations of every accepted first-level deviation (bounded per bundle)
 			n := len(muts)
-			for j := 0; j < n && len(muts) < n+4000; j++ {
+			for j := 0; j < n && len(muts) < n+12000; j++ {
 				if _, err := gen.Parse(muts[j].enc); err == nil && !bytes.Equal(muts[j].enc, enc) {
 					func() {
 						defer func() { _ = recover() }()
